@@ -288,6 +288,13 @@ fn file_roundtrip<T: SerdeAPI + Clone>(ctx: &mut Ctx, ty: &str, state: &str, x: 
                 ctx.count("obs.file_overwrites_of_a_longer_file");
             }
         }
+        if *ext == "bin" && !x.to_bincode().ok().map(|b| T::from_bincode(&b).is_ok()).unwrap_or(false) {
+            // the bytes API already fails for this object (recorded bincode findings); reading such a stream
+            // through a reader lets bincode pre-allocate whatever length the misaligned stream claims (observed:
+            // 1.6e17 bytes => allocation failure => process abort), so the file is not read back
+            ctx.count("obs.file_bin_reads_skipped_because_bytes_api_fails");
+            continue;
+        }
         match T::from_file(&path) {
             Ok(y) => {
                 ctx.count("obs.file_roundtrips_ok");
